@@ -142,8 +142,15 @@ func (s *regSession) yield(point string, id int64) {
 	s.mu.Unlock()
 	key := fmt.Sprintf("%s@%d", point, t)
 	if s.gates[point] || s.gates[key] {
+		logIt := func() {
+			if len(point) > 4 && (point[:4] == "reg." || point[:4] == "rts.") {
+				s.log.Emit("hook", tr.E{"point": point, "t": t, "sid": id, "a": 0, "b": 0})
+			}
+		}
 		select {
 		case <-s.quit:
+			// tearing down: nobody is held any more, but the point is still part of the history
+			logIt()
 			return
 		default:
 		}
@@ -151,6 +158,7 @@ func (s *regSession) yield(point string, id int64) {
 		s.mu.Lock()
 		if _, dup := s.parked[key]; dup {
 			s.mu.Unlock()
+			logIt()
 			return
 		}
 		s.parked[key] = ch
